@@ -45,7 +45,7 @@ CHECKS = {
         note='SQLite random() is a seeded user-defined function; the time zone, the working directory (relative database path) and the lifetime of the Database object are owned by the simulator. The schedule importer is bypassed. Weakest fit of the claimed properties (no fault kinds).',
         tech='deterministic simulation: seeded query-object histories against a Python reference evaluator'),
     'C17': dict(engine='builder-sim', cat='exploration', ref='4/C17',
-        text='Seeded call histories on long-lived builders with natural failures (unknown airport, airport above cruise, out-of-envelope mass, missing weather) and failures injected at seeded evaluate/weather/airport call counts, each call compared bit for bit with a brand-new builder under the same fault plan (reference flight before or after, so that mission objects are short-lived); an unreadable supplemental airport table is one more fault kind. Sampling, not proof.',
+        text='Seeded call histories on long-lived builders with natural failures (unknown airport, airport above cruise, out-of-envelope mass, missing weather) and failures injected at seeded evaluate/weather/airport call counts, each call compared bit for bit with a brand-new builder under the same fault plan (reference flight before or after, so that mission objects are short-lived); an unreadable supplemental airport table is one more fault kind; model variants (other ceiling / payload) are flown as a model_copy of the already-flown long-lived model on the used builder against an independently validated model on the brand-new one. Sampling, not proof.',
         note='Uses the shipped sample performance model and test weather files; collaborators are wrapped by delegating fault-injecting pass-throughs.',
         tech='deterministic simulation with fault injection: seeded call histories, differential against fresh builders'),
     'C18': dict(engine='config-sim', cat='exploration', ref='4/C18',
